@@ -1,20 +1,27 @@
 """C02 — redelivery and reordering never change the result or repeat finished work (engine-level: Mode-A trace differential + monitors; see harness/engine_suites.py)."""
 from __future__ import annotations
 
-from harness import engine_suites
+from harness import engine_suites, synth_suites
 
 RULE = ("random workflows (1-5 stages, every join type, scripted task outcomes incl. polling / transient / jump / suspend) x "
         "delivery schedules (fifo | random order | random + redelivery of unacknowledged messages | arbitrary incl. early re-polls), "
         "every op is applied to the REAL engine and the Lean model, the state line after every op is compared; "
-        "a trace is distinct by (spec, op list) and non-trivial when it has >= 8 ops and a non-FIFO choice or an injected op")
+        "a trace is distinct by (spec, op list) and non-trivial when it has >= 8 ops and a non-FIFO choice or an injected op; "
+        "PLUS the synthetic-stage family (harness/synth_suites.py, IMPLEMENTATION-ONLY: monitors on real-engine traces, no model line): workflows of 1-3 top-level stages (single | chain | two parallel roots | fan-in) with 1-2 pre-declared STAGE_BEFORE / STAGE_AFTER children per chosen parent, stored through the real store; per workflow (no suspending task) the in-order run and two crash-free schedules (random order | redelivery of unacknowledged messages | one row starved | a second worker delivering other messages while a task executes); judged by smon_c02_reexec (a task with a recorded result never executes again, children included) and smon_c02_outcome (workflow / every stage / every task status and per-task execution counts equal the in-order run's)")
 ASSUMPTIONS = ["delays are abstracted: budget-respecting schedules deliver a delayed message only when no immediate one is pending",
-               "per-workflow circuit breaker disabled in the harness (volatile state outside the model)"]
+               "per-workflow circuit breaker disabled in the harness (volatile state outside the model)",
+               "synthetic-stage family: workflows with a halting task result (a failing branch racing its siblings) and reference runs that themselves halted are excluded from the outcome comparison as in mon_c02_outcome (DESIGN section 6); the re-execution clause is checked on all of them; only AND joins occur",
+               "synthetic-stage family: a signature adjudicated as a real defect and awaiting a decision (synth_suites.PENDING) is evaluated on every run but REPORTED only with VERIF_SYNTH_PENDING=1"]
 TRUSTED_BASE = ["Engine model (lean/Stab/Model/Engine.lean) is hand-written; tied to handlers/* by the trace differential on generated schedules only",
-                "not modelled: synthetic stages, mutex/deferred choice, OR-split conditions, pause/resume, timeouts, PostgreSQL backend"]
+                "not modelled: synthetic stages (and ContinueParentStage), mutex/deferred choice, OR-split conditions, pause/resume, timeouts, PostgreSQL backend",
+                "synthetic before/after stages are covered by an IMPLEMENTATION-ONLY family (harness/synth_suites.py): the property is stated by monitors on traces of the real engine; "
+                "no theorem and no model correspondence speaks about them; trusted there: the generator, the monitors, the symbolic minimiser / replayer (schedule by message code, then in-order drain), the queue's dead-letter rule as replayed by the harness"]
 
 
 def run(ctx) -> None:
     engine_suites.run_for(ctx, "C02")
+    # synthetic before/after stages: implementation-only family (monitors on real-engine traces, no model line)
+    synth_suites.run_for(ctx, "C02")
 
 
 def search(ctx) -> None:
@@ -22,4 +29,6 @@ def search(ctx) -> None:
 
 
 def replay(ctx, body) -> int:
+    if synth_suites.is_synth_replay(body):
+        return synth_suites.replay(ctx, body)
     return engine_suites.replay(ctx, body)
